@@ -17,3 +17,12 @@ package process
 //@   ensures(pipes) running && ref(c.stdin) != ref(c.stdout) ==> closeCalls(c.stdout) == o0 + 1 && closeCalls(c.stdin) == i0 + 1
 //@   ensures(once) !running ==> waitCalls(c.cmd) == w0 && closeCalls(c.stdout) == o0 && closeCalls(c.stdin) == i0 && result == nil
 //@   ensures(stopped) !abool(c.running)
+
+// NewClient: the child is started exactly once on success and the client owns it.
+//@ contract NewClient
+//@   props C16
+//@   requires cmd != nil
+//@   let s0 = startCalls(cmd)
+//@   modifies startCalls(cmd)
+//@   ensures(started) err == nil ==> result != nil && fresh(result) && result.cmd == cmd && result.running != nil && abool(result.running) && startCalls(cmd) == s0 + 1
+//@   ensures(failed) err != nil ==> result == nil && startCalls(cmd) == s0
